@@ -332,16 +332,20 @@ def hist_steps(rng, n):
             steps.append(["realloc", 0])
         else:
             steps.append(["init", 0]); steps.append(["realloc", 0])
+    # the Q registers each step addresses its qubits through (low indices included: the program may write a
+    # register the transpiler used as scratch for the electron earlier in the same subroutine)
+    for st in steps:
+        st.append(rng.sample(range(8), 2))
     return steps
 
 
 def hist_instrs(ns, steps):
-    ra, rb = ns.Register(ns.RegisterName.Q, 5), ns.Register(ns.RegisterName.Q, 6)
-
     def sset(r, v):
         return ns.core.SetInstruction(reg=r, imm=ns.Immediate(v))
     out = []
     for st in steps:
+        ia, ib = st[-1] if isinstance(st[-1], list) else (5, 6)
+        ra, rb = ns.Register(ns.RegisterName.Q, ia), ns.Register(ns.RegisterName.Q, ib)
         if st[0] == "g1":
             out += [sset(ra, st[2]), ns.g1[st[1]](reg=ra)]
         elif st[0] == "rot":
@@ -411,6 +415,12 @@ def hist_case(ctx, ns, steps, hw, psi_seed):
     got = hist_run(ns, out, rho0, False)
     if isinstance(want, str):
         raise RuntimeError("history generator produced something the oracle does not know: " + want)
+    if isinstance(got, str) and got.startswith("two-qubit instruction on one qubit"):
+        ctx.violation("inside a subroutine history the emitted NV sequence addresses one qubit twice in a two-qubit "
+                      "instruction (a register the expansion relies on no longer holds the qubit it was set to)",
+                      dict(kind="history", steps=steps, hw=hw, psi_seed=psi_seed, emitted=[str(i) for i in out][:120], problem=got),
+                      key="C07:history")
+        return True
     if isinstance(got, str):
         ctx.coverage["history_cases_skipped"] = ctx.coverage.get("history_cases_skipped", 0) + 1
         ctx.coverage["history_skip_reason"] = got[:200]
